@@ -396,7 +396,7 @@ OPS = [
     ("c20len", "proper", "(c20len({S1}, N) -> {R} = N ; {R} = n)"),
     ("append3", "two", "once(append({S1}, {S2}, X)), {R} = X-{T1}"),
     ("append_split", "proper short", "findall(X-Y, append(X, Y, {S1}), {R})"),
-    ("append_prefix", "two", "(once(append({S1}, X, {S2})) -> {R} = y(X,{T1},{T2}) ; {R} = n)"),
+    ("append_prefix", "two dist", "(once(append({S1}, X, {S2})) -> {R} = y(X,{T1},{T2}) ; {R} = n)"),
     ("append_suffix", "two proper", "findall(X, append(X, {S1}, {S2}), {R})"),
     ("append2", "two proper", "append([{S1},{S2},{S1}], {R})"),
     ("c20app", "two proper", "(c20app({S1}, {S2}, X) -> {R} = X ; {R} = n)"),
@@ -791,6 +791,7 @@ def run(ctx):
     core.log("[C20] differential run: %d items, %.1fs, %d variants retried" % (len(cases), time.time() - t0, len(retry)))
 
     findings, agree, total = [], 0, 0
+    both_timeout = 0
     distinct = set()
     per_op, per_rec, kinds, classes = {}, {}, {}, {}
     seen_sig = set()
@@ -812,6 +813,11 @@ def run(ctx):
                 print("replay %s\n  ref     = %s\n  variant = %s  [%s]\n  goal: %s" % (item["op"], ref, r, rn, v["q"]))
             if r == ref and not transient(r) and not r.startswith("panic"):
                 agree += 1
+                continue
+            if r == ref and r.startswith("timeout"):
+                # the goal does not terminate for the explicit list either (after the retry):
+                # not an observation that distinguishes the representations
+                both_timeout += 1
                 continue
             kind = "panic" if (r.startswith("panic") or ref.startswith("panic")) else \
                    "abort" if (r.startswith("abort") or ref.startswith("abort")) else "differ"
@@ -897,6 +903,7 @@ def run(ctx):
         "mechanism_model_outcomes": mech_out,
         "mechanism_agree": mech_agree,
         "known_defect_class_instances": classes,
+        "both_sides_timeout": both_timeout,
         "content_kinds": kinds,
         "findings": findings,
     }
